@@ -3,7 +3,9 @@
    7 rename 8 map 9 map_with_index 10 map_mut 11 map_mut_with_index 12 elementwise
    13 elementwise_with_index 14 first 15 scalar/into_scalar 16 into_matrix 17 Matrix::into_tensor
    20 eq/similar (both argument orders)  21 eq/similar over f64 with NaN elements (every form,
-   same-object operands included; only booleans are compared).  `form` 0 = Tensor method, 1 = TensorView method over a
+   same-object operands included; only booleans are compared).
+   30 sub term ..: the view methods / equality / similarity over ANY C02 view term as the source
+   (sub 1 reorder 2 transpose 8 map 9 map_with_index 12/13 elementwise(_with_index) 14 first 20 eq/similar).  `form` 0 = Tensor method, 1 = TensorView method over a
    source term ((0 shape data) | (1 src names) reverse | (2 src ranges) range | (3 src names)
    access | (4 src names) transpose | (5 src masks) mask | (6 src names) rename).  See coq/theories/Run/RunC13.v for the exact layout."""
 import itertools, random
@@ -293,12 +295,91 @@ def gen(tier, rng):
         else:
             right = tbase([ll[p] for p in perm], [ln[p] for p in perm], off=rng.randrange(-5, 5))
         yield sx([13, 20, left, right])
+    # sources from the whole C02 view algebra (op 30)
+    for c in over_view_cases(rng, quick):
+        yield c
+
+
+def over_view_cases(rng, quick):
+    """(13 30 sub term ..): the TensorView transformations / equality / similarity with ANY view of
+    the C02 algebra as the source (term language and generators of tools/props/c02.py: every
+    single adaptor incl. TensorIndex / TensorExpansion / stack / chain / wrappers / convenience
+    constructors over small leaves, plus random compositions to depth 4)"""
+    from tools.props import c02
+    terms = []
+    for lens in ([], [3], [2, 3], [2, 2], [2, 1, 2]):
+        base = c02.leaf(1, lens)
+        pool = list(c02.single_adaptors(base, base[2], rng, [0, 1, 2], False))
+        pool += list(c02.stack_chain(base, base[2], rng, [c02.leaf(2, [l + 1 for l in lens])]))
+        per_kind = {}
+        for t in pool:
+            per_kind.setdefault(t[0], []).append(t)
+        for kind, lst in per_kind.items():
+            for t in rng.sample(lst, min(len(lst), 6 if quick else 40)):
+                terms.append(t)
+                for tv in c02.via_variants(t):
+                    if rng.random() < 0.3:
+                        terms.append(tv)
+    for _ in range(500 if quick else 6000):
+        terms.append(c02.random_term(rng, rng.choice([1, 2, 2, 3, 4]), [1]))
+    for t in terms:
+        if not c02.well_typed(t):
+            continue
+        t = c02.renumber(c02.unify_families(t), [0])
+        sh = c02.pshape(t)
+        if sh is None:
+            if rng.random() < 0.1:
+                yield sx([13, 30, 9, t])            # a failing constructor is reported as in C02
+            continue
+        total = 1
+        for _, l in sh:
+            total *= l
+        if total > 120:
+            continue
+        names = [n for n, _ in sh]
+        D = len(sh)
+        other = c02.relabel(t, 100)
+        perm = list(names); rng.shuffle(perm)
+        yield sx([13, 30, rng.choice([1, 2]), t, perm])
+        if D >= 2 and rng.random() < 0.3:
+            yield sx([13, 30, rng.choice([1, 2]), t, [names[0]] * D])
+        if D >= 1 and rng.random() < 0.2:
+            yield sx([13, 30, rng.choice([1, 2]), t, [FOREIGN] + names[1:]])
+        r = rng.random()
+        if r < 0.35:
+            yield sx([13, 30, 8, t, rng.randrange(-5, 6), rng.randrange(-9, 10)])
+        elif r < 0.7:
+            yield sx([13, 30, 9, t])
+        else:
+            yield sx([13, 30, 14, t])
+        # elementwise with a second view of the same shape (other leaves), sometimes a different shape
+        r = rng.random()
+        if r < 0.5:
+            yield sx([13, 30, rng.choice([12, 13]), t, other])
+        elif r < 0.6 and D >= 1:
+            yield sx([13, 30, 12, t, c02.leaf(1, [l + 1 for _, l in sh], names)])
+        # equality / similarity: the same view again (equal), other leaves (different elements),
+        # a reordering (similar, not equal unless symmetric), a renaming, a tensor with the view's shape
+        choice = rng.random()
+        if choice < 0.3:
+            right = t
+        elif choice < 0.5:
+            right = [7, t, perm]
+        elif choice < 0.65:
+            right = other
+        elif choice < 0.8:
+            right = [7, other, perm]
+        elif choice < 0.9:
+            right = [5, t, [n + 10 for n in names]]
+        else:
+            right = c02.leaf(t[1] if t[0] == 0 else 1, [l for _, l in sh], names)
+        yield sx([13, 30, 20, t, right])
 
 
 def nontrivial(case, model_out):
     """an accepted transformation whose result has at least two elements, a rejected one (panic /
     error), or an equality / similarity verdict"""
-    if case.startswith("(13 20"):
+    if case.startswith("(13 20") or case.startswith("(13 30 20"):
         return True
     return model_out.startswith("(2)") or model_out.startswith("(1") or model_out.count("(") >= 6
 
